@@ -108,17 +108,33 @@ type caps struct{ txids, snaps, derived int }
 
 // postRun applies the C01/C02/snapshot oracles to one main database after the
 // stress child has exited.
-func postRun(res *vf.Result, mf MainFinal, scratch string, cp caps, resets []float64, interrupted, root string) {
-	// A run in which ResetLocalState was called on this database is a
-	// different witness class (TXIDs can be re-issued with other content).
+// resetObs is one ResetLocalState call that returned nil, with what the replica
+// held when it returned.
+type resetObs struct {
+	At           float64
+	L0Max, HiMax int
+}
+
+func postRun(res *vf.Result, mf MainFinal, scratch string, cp caps, resets []resetObs, interrupted, root string) {
+	// Witness class "snapshot ahead of level 0 at reset": when ResetLocalState
+	// returned, the replica held a file at level >= 1 whose MaxTXID exceeded
+	// its highest level-0 TXID (a snapshot published at position n before
+	// L0/n was uploaded); the reset drops the local L0/n and TXID n is issued
+	// again with other content. Any other reset keeps the generic key.
 	sfx, note := "", ""
-	if len(resets) > 0 {
-		sfx = ":after-ResetLocalState"
-		note = fmt.Sprintf(" [ResetLocalState returned nil on this database at t=%.1fs]", resets[0])
+	for _, r := range resets {
+		if r.HiMax > r.L0Max {
+			sfx = ":snapshot-ahead-of-l0-at-reset"
+			note = fmt.Sprintf(" [when ResetLocalState returned at t=%.1fs the replica held a level>=1 file up to TXID %d but level 0 only up to %d]", r.At, r.HiMax, r.L0Max)
+			break
+		}
+	}
+	if sfx == "" && len(resets) > 0 {
+		note = fmt.Sprintf(" [ResetLocalState returned nil on this database at t=%.1fs (replica level 0 up to %d, higher levels up to %d)]", resets[0].At, resets[0].L0Max, resets[0].HiMax)
 	}
 	if sfx == "" && interrupted != "" {
 		sfx = ":after-interrupted-checkpoint"
-		note = " [a non-PASSIVE checkpoint failed after wal_checkpoint had run: " + interrupted + "]"
+		note += " [a checkpoint failed after wal_checkpoint had run: " + interrupted + "]"
 	}
 	note += root
 	ctx := context.Background()
